@@ -112,7 +112,8 @@ class MemImpl(B.Impl):
             i, t = args        # the CALL commits, the reply is lost: the Instance object never gets past the await
             return w.call("CALL deactivate_instance(%s, %s, %s);", (i, "deactivated", t))
         inner = {"MCreateUpdate": "CreateUpdate", "MCommit": "Commit", "MInsertGroup": "InsertGroup", "MCancelGroup": "CancelGroup",
-                 "MInsertJob": "InsertJob", "MCancelReady": "CancelReady"}
+                 "MInsertJob": "InsertJob", "MCancelReadySelect": "CancelReadySelect", "MCancelReadyCall": "CancelReadyCall",
+                 "MCancelRunningSelect": "CancelRunningSelect", "MOrphanSelect": "OrphanSelect"}
         return super().apply(inner.get(name, name), args)
 
     def project(self):
